@@ -33,6 +33,7 @@ Image(n) ==
     [] k \in IntKinds -> JIntS(n.v)
     [] k \in {"f32", "f64"} -> IF "special" \notin DOMAIN n THEN Rat(n.p, n.q)
                                ELSE IF n.special = "negzero" THEN [t |-> "num", p |-> 0, q |-> 1, z |-> TRUE]   \* -0.0 keeps its sign (serde_json prints -0.0)
+                               ELSE IF n.special \in {"tiny", "tiny64"} THEN [t |-> "num", tiny |-> TRUE]       \* subnormal floats are numbers (the image says no more than that)
                                ELSE JNull                                                          \* non-finite floats become null
     [] k = "char" -> JStr(<<n.c>>)
     [] k = "str" -> JStr(n.s)
@@ -57,7 +58,8 @@ IntLeaves == {I("i8", "-128"), I("i8", "127"), I("i8", "0"), I("i16", "-32768"),
 F(kind, p, q) == [k |-> kind, p |-> p, q |-> q]
 FloatLeaves == {F("f64", 1, 2), F("f64", -3, 2), F("f64", 5, 1), F("f32", 1, 4), F("f32", -2, 1),
                 [k |-> "f64", special |-> "nan"], [k |-> "f64", special |-> "inf"], [k |-> "f64", special |-> "ninf"], [k |-> "f32", special |-> "nan"],
-                [k |-> "f64", special |-> "negzero"], [k |-> "f32", special |-> "negzero"], F("f64", 0, 1)}
+                [k |-> "f64", special |-> "negzero"], [k |-> "f32", special |-> "negzero"], F("f64", 0, 1),
+                [k |-> "f32", special |-> "tiny"], [k |-> "f64", special |-> "tiny64"], [k |-> "f64", special |-> "tiny"]}
 OtherLeaves == {[k |-> "bool", b |-> TRUE], [k |-> "bool", b |-> FALSE], [k |-> "char", c |-> 97], [k |-> "char", c |-> 233], [k |-> "char", c |-> 128512],
                 [k |-> "str", s |-> <<>>], [k |-> "str", s |-> <<97, 233>>], [k |-> "bytes", b |-> <<>>], [k |-> "bytes", b |-> <<0, 255, 7>>],
                 [k |-> "none"], [k |-> "unit"], [k |-> "unit_struct"], [k |-> "unit_variant", name |-> 0], [k |-> "unit_variant", name |-> 2]}
